@@ -349,6 +349,20 @@ Proof.
   unfold k_push in K. now apply negb_false_iff in K.
 Qed.
 
+(** the proposed repair of C09-K1 (Opt.v [pfd_fix]): sound outside what is left of the class, and
+    the three witnesses of the class are outside it and keep their rows *)
+Theorem pfd_fix_sound_k : forall G p,
+  uniform p = true -> k_push_fix p = false -> sem G (pfd_fix p) = sem G p.
+Proof.
+  intros G p U K. apply pfd_fix_sound; [assumption|]. unfold k_push_fix in K. now apply negb_false_iff in K.
+Qed.
+
+Theorem pfd_fix_witnesses : forall p, In p [pW1; pW2; pW3] ->
+  k_push p = true /\ k_push_fix p = false /\ sem gW (pfd_fix p) = sem gW p.
+Proof.
+  intros p H. cbn [In] in H. destruct H as [<-|[<-|[<-|[]]]]; repeat split; vm_compute; reflexivity.
+Qed.
+
 (** equal normal forms as terms: equal lists of rows *)
 Theorem join_normal_form_eq : forall G p q,
   jt_wf p = true -> jt_wf q = true -> jnf p = jnf q -> sem G p = sem G q.
